@@ -23,6 +23,9 @@ pub enum UF {
     IntPlus5,
     /// first number found in the argument (depth-first), `Int(0)` if none
     FirstNumber,
+    /// fails with `FunctionIdentifierNotFound(name)` — e.g. a function that evaluates a nested
+    /// expression in a restricted context and propagates its error
+    NotFound(String),
 }
 
 impl PartialEq for UF {
@@ -32,6 +35,7 @@ impl PartialEq for UF {
             (UF::Const(a), UF::Const(b)) => a.same(b),
             (UF::Tag(a), UF::Tag(b)) => a == b,
             (UF::Fail(a), UF::Fail(b)) => a == b,
+            (UF::NotFound(a), UF::NotFound(b)) => a == b,
             _ => false,
         }
     }
@@ -44,6 +48,7 @@ impl UF {
             UF::Const(v) => Ok(v.clone()),
             UF::Tag(k) => Ok(RV::Tuple(vec![RV::Int(*k), arg.clone()])),
             UF::Fail(k) => Err(RE::Custom(format!("fail#{}", k))),
+            UF::NotFound(n) => Err(RE::FnNotFound(n.clone())),
             UF::IntPlus5 => match arg {
                 RV::Int(i) => Ok(RV::Int(i.wrapping_add(5))),
                 other => Err(RE::Expected(Exp::Int, other.clone())),
@@ -218,6 +223,7 @@ impl<'a> Interp<'a> {
             Empty => Ok(RV::Empty),
             Paren(x) => self.eval(x),
             Malformed(_) => Err(RE::Unclaimed("malformed tree")),
+            Opaque(_) => Err(RE::Unclaimed("D6 word")),
             Var(n) => match self.ctx.get(n) {
                 Some(v) => Ok(v.clone()),
                 None => Err(RE::VarNotFound(n.clone())),
